@@ -395,7 +395,7 @@ def oracle(case, res, hist):
             V.append(v("reorder", f"{d}", f"channel {label} {d}: delivered {Du} is not a prefix of wire order {W}"))
         side = "i" if d == "w2i" else "w"
         if eof_seen.get((label, side)) and set(W) - set(Du):
-            V.append(v("lost-item", f"{d}", f"channel {label} {d}: receiver saw EOF, never got {sorted(set(W) - set(Du))}"))
+            V.append(v("lost-item", f"{d}", f"channel {label} {d}: receiver saw EOF, never got {sorted(set(W) - set(Du), key=str)}"))
     # every acknowledged send is on the wire exactly once, per-sender program order kept
     for d in ("i2w", "w2i"):
         allw = []
